@@ -176,11 +176,11 @@ def gen_call(lib, k, call):
     elif r["kind"] in ("cstr", "str_val", "str_cref", "str_ptr_own"):
         D.append("character(len=:), allocatable :: vfret")
     elif r["kind"] == "arr_ptr" and r["deref"] == "pointer":
-        D.append("%s, pointer :: vfret(:)" % ftype(r["T"]))
+        D.append("%s, pointer :: vfret(%s)" % (ftype(r["T"]), ",".join(":" * len(r.get("dims") or [1]))))
         if r.get("owner") == "caller":
             A.append(call["crv"])          # documented: an extra capsule argument owns the memory
     elif r["kind"] in ("arr_ptr", "vec_val"):
-        D.append("%s, allocatable :: vfret(:)" % ftype(r["T"]))
+        D.append("%s, allocatable :: vfret(%s)" % (ftype(r["T"]), ",".join(":" * len(r.get("dims") or [1]))))
     elif r["kind"] in ("cstr_len", "str_cref_len"):
         D.append("character(len=%d) :: vfret" % r["N"])
     L += ["    " + d for d in D]
@@ -199,6 +199,10 @@ def gen_call(lib, k, call):
         L.append("    " + prn(r["T"], "ret", "vfret"))
     elif r["kind"] in ("cls_ptr", "cls_val"):
         L.append("    call vfo_b('associated', %s%%associated())" % call["res_obj"])
+    elif r["kind"] == "arr_ptr" and r.get("dims"):
+        # documented: the result has the declared extents; values in C (row-major storage) order = Fortran element order
+        L.append("    " + prn_arr(r["T"], "ret", "reshape(vfret, [size(vfret)])"))
+        L.append("    call vfo_ai('shape', int(shape(vfret), %s))" % LL)
     elif r["kind"] in ("arr_ptr", "vec_val"):
         L.append("    " + prn_arr(r["T"], "ret", "vfret"))
     elif r["kind"] != "void":
@@ -215,7 +219,13 @@ def lib_un_camel(s):
 
 def gen_driver(lib, plan):
     mod = lib["name"].lower() + "_mod"
-    L = ["program vf_driver", "  use iso_c_binding", "  use vf_out", "  use %s" % mod, "  implicit none"]
+    L = ["program vf_driver", "  use iso_c_binding", "  use vf_out", "  use %s" % mod]
+    for nsb in sorted({f["ns"] for f in lib["functions"] if f.get("ns")}):
+        # only the wrapped names: both modules also export the interfaces of the helpers they share
+        names = sorted({v["f_generic"] for f in lib["functions"] if f.get("ns") == nsb for v in f["variants"]} |
+                       {v["f_specific"] for f in lib["functions"] if f.get("ns") == nsb for v in f["variants"]})
+        L.append("  use %s_%s_mod, only: %s" % (lib["name"].lower(), nsb.lower(), ", ".join(names)))
+    L.append("  implicit none")
     objs = {}
     for c in plan:
         if c.get("obj"):
